@@ -104,6 +104,7 @@ struct State {
     gui_pos: usize,
     r_blocked: bool,
     r_blocked_in_read: bool,
+    r_timed_out: bool,
 }
 
 struct Ctx {
@@ -140,7 +141,7 @@ fn drain(c: &Ctx) {
 }
 
 /// the modelled `select(2)` on the client's descriptor: returns 1 when readable
-pub fn model_select(fd: i32) -> i32 {
+pub fn model_select(fd: i32, has_timeout: bool) -> i32 {
     let c = ctx();
     assert_eq!(fd as usize, FD, "select on an unexpected descriptor");
     let mut g = c.lock.lock().unwrap();
@@ -189,6 +190,13 @@ pub fn model_select(fd: i32) -> i32 {
                     }
                     return 1;
                 }
+            }
+            if has_timeout {
+                // a bounded wait on a quiet (but live) session: the timeout may always fire first
+                st.r_timed_out = true;
+                drop(st);
+                c.cv.notify_all();
+                return 0;
             }
             st.r_blocked = true;
         }
@@ -565,7 +573,7 @@ fn execution(script: Script) {
     let c = Rc::new(Ctx {
         lock: Mutex::new(()),
         cv: Condvar::new(),
-        st: RefCell::new(State { to_client: VecDeque::new(), delivered: 0, closed: false, record_ends: vec![], end_offset: None, events: vec![], selects_on_dead: 0, teardown: false, violations: vec![], env_pos: 0, gui_pos: 0, r_blocked: false, r_blocked_in_read: false }),
+        st: RefCell::new(State { to_client: VecDeque::new(), delivered: 0, closed: false, record_ends: vec![], end_offset: None, events: vec![], selects_on_dead: 0, teardown: false, violations: vec![], env_pos: 0, gui_pos: 0, r_blocked: false, r_blocked_in_read: false, r_timed_out: false }),
         rx: RefCell::new(None),
         sync: RefCell::new(None),
     });
@@ -654,7 +662,7 @@ fn execution(script: Script) {
         loop {
             {
                 let st = c.st.borrow();
-                if st.teardown || ((st.r_blocked || st.r_blocked_in_read) && st.to_client.is_empty()) {
+                if st.teardown || st.r_timed_out || ((st.r_blocked || st.r_blocked_in_read) && st.to_client.is_empty()) {
                     break;
                 }
             }
@@ -667,6 +675,13 @@ fn execution(script: Script) {
     }
     let joined = handle.join();
     drain(&c);
+    {
+        let mut st = c.st.borrow_mut();
+        if st.r_timed_out && !st.closed && st.end_offset.map(|o| st.delivered < o).unwrap_or(true) && !st.violations.iter().any(|v| v.0.starts_with("spins") || v.0.starts_with("did-not-stop")) {
+            // the wait gave up on a live session and the thread left (or would leave) without any end event
+            violation(&mut st, "receive-thread-left-a-live-session", "a bounded wait on the descriptor expired while the session was alive and quiet; the thread treated it like the end of the session".to_string());
+        }
+    }
     let refs = Arc::strong_count(&client);
     let lock_ok = client.try_lock().is_ok();
     let mut st = c.st.borrow_mut();
